@@ -154,6 +154,7 @@ StepOK(pre, ev, post) ==
     /\ C14_Auth(pre, ev, post)
     /\ C16_Create(pre, ev, post)
     /\ C16_Requested(pre, ev, post)
+    /\ C19_Monotone(pre, post)
     /\ C17_Update(pre, ev, post)
     /\ C20_Withdrawable(pre, ev)
 StepProp == [][StepOK(w, last', w')]_vars
